@@ -18,6 +18,8 @@ Section LoopInvariant.
   Variable Ext : W -> W -> Prop.            (* the world only grows *)
   Variable Good : W -> R -> Prop.           (* a history entry is meaningful in a world *)
   Variable PopOk : W -> Pop -> Prop.        (* the current population is meaningful in a world *)
+  Hypothesis Ext_refl : forall w, Ext w w.
+  Hypothesis Ext_trans : forall a b c, Ext a b -> Ext b c -> Ext a c.
   Hypothesis Good_mono : forall w w' r, Ext w w' -> Good w r -> Good w' r.
   Hypothesis PopOk_mono : forall w w' p, Ext w w' -> PopOk w p -> PopOk w' p.
 
@@ -27,8 +29,8 @@ Section LoopInvariant.
     Ext w w2 /\ (forall x, In (Result x) evs -> Good w2 x) /\ (forall p, r = Ok p -> PopOk w2 p).
   Hypothesis estimate_ok : forall op w pop est w1, w_estimate _ _ _ _ _ _ _ _ _ wd op w pop = (est, w1) -> Ext w w1.
 
-  Definition LI (s : ls) : Prop :=
-    PopOk (l_w _ _ _ _ _ s) (l_pop _ _ _ _ _ s) /\ Forall (Good (l_w _ _ _ _ _ s)) (st_hist _ _ (l_st _ _ _ _ _ s)).
+  Definition LI (w0 : W) (s : ls) : Prop :=
+    Ext w0 (l_w _ _ _ _ _ s) /\ PopOk (l_w _ _ _ _ _ s) (l_pop _ _ _ _ _ s) /\ Forall (Good (l_w _ _ _ _ _ s)) (st_hist _ _ (l_st _ _ _ _ _ s)).
 
   Lemma do_event_hist (cfg : config) (s : ls) (e : event R) :
     let s' := do_event Ind R Pop Op W Init AuxEv best_value best_ind cfg s e in
@@ -60,14 +62,14 @@ Section LoopInvariant.
       + exists (r :: added). split; [rewrite C2, C, <- app_assoc; reflexivity|]. intros x [<-|Hx]; [left; reflexivity|right; auto].
   Qed.
 
-  Lemma for_ops_LI (cfg : config) ops : forall (s : ls), LI s -> LI (for_ops _ _ _ _ _ _ _ _ _ best_value best_ind cfg wd ops s).
+  Lemma for_ops_LI w0 (cfg : config) ops : forall (s : ls), LI w0 s -> LI w0 (for_ops _ _ _ _ _ _ _ _ _ best_value best_ind cfg wd ops s).
   Proof.
-    induction ops as [|op rest IH]; intros s [HP HH]; simpl; [split; assumption|].
-    destruct (l_err _ _ _ _ _ s); [split; assumption|].
+    induction ops as [|op rest IH]; intros s [HE [HP HH]]; simpl; [repeat split; assumption|].
+    destruct (l_err _ _ _ _ _ s); [repeat split; assumption|].
     destruct (w_estimate _ _ _ _ _ _ _ _ _ wd op (l_w _ _ _ _ _ s) (l_pop _ _ _ _ _ s)) as [est w1] eqn:Ee.
     pose proof (estimate_ok _ _ _ _ _ Ee) as X1.
     destruct (limit_checks _ _ _ _ _ cfg (l_st _ _ _ _ _ s) est).
-    - split; simpl; [eapply PopOk_mono; eauto|eapply Forall_impl; [|exact HH]; intros; eapply Good_mono; eauto].
+    - split; [simpl; eapply Ext_trans; eauto|]. split; simpl; [eapply PopOk_mono; eauto|eapply Forall_impl; [|exact HH]; intros; eapply Good_mono; eauto].
     - simpl. destruct (w_apply _ _ _ _ _ _ _ _ _ wd op w1 (l_pop _ _ _ _ _ s)) as [[evs rpop] w2] eqn:Ea.
       destruct (apply_ok _ _ _ _ _ _ (PopOk_mono _ _ _ X1 HP) Ea) as [X2 [X3 X4]].
       match goal with |- context [fold_left ?f evs ?s0] => destruct (fold_events cfg evs s0) as [A [B [added [C D]]]]; set (s3 := fold_left f evs s0) in * end.
@@ -76,14 +78,15 @@ Section LoopInvariant.
       { rewrite C. apply Forall_app. split.
         - eapply Forall_impl; [|exact HH]. intros r Hr. eapply Good_mono; [exact X2|]. eapply Good_mono; [exact X1|exact Hr].
         - apply Forall_forall. intros x Hx. apply X3. apply D. exact Hx. }
+      assert (E02 : Ext w0 w2) by (eapply Ext_trans; [eapply Ext_trans; [exact HE|exact X1]|exact X2]).
       destruct (l_err _ _ _ _ _ s3) eqn:E3.
-      + split; [rewrite A, B; simpl; eapply PopOk_mono; [exact X2|eapply PopOk_mono; eauto]|rewrite A; exact L3].
+      + split; [rewrite A; exact E02|]. split; [rewrite A, B; simpl; eapply PopOk_mono; [exact X2|eapply PopOk_mono; eauto]|rewrite A; exact L3].
       + destruct rpop as [p|x].
-        * apply IH. split; simpl; [rewrite A; apply X4; reflexivity|rewrite A; exact L3].
-        * split; simpl; [rewrite A, B; simpl; eapply PopOk_mono; [exact X2|eapply PopOk_mono; eauto]|rewrite A; exact L3].
+        * apply IH. split; [simpl; rewrite A; exact E02|]. split; simpl; [rewrite A; apply X4; reflexivity|rewrite A; exact L3].
+        * split; [simpl; rewrite A; exact E02|]. split; simpl; [rewrite A, B; simpl; eapply PopOk_mono; [exact X2|eapply PopOk_mono; eauto]|rewrite A; exact L3].
   Qed.
 
-  Lemma while_LI (cfg : config) fuel : forall (s : ls), LI s -> LI (while_loop _ _ _ _ _ _ _ _ _ best_value best_ind cfg wd fuel s).
+  Lemma while_LI w0 (cfg : config) fuel : forall (s : ls), LI w0 s -> LI w0 (while_loop _ _ _ _ _ _ _ _ _ best_value best_ind cfg wd fuel s).
   Proof.
     induction fuel as [|f IH]; intros s H; simpl; destruct (l_err _ _ _ _ _ s); auto;
       destruct (st_term _ _ (l_st _ _ _ _ _ s)); auto.
@@ -92,8 +95,8 @@ Section LoopInvariant.
 
   Theorem run_LI (cfg : config) fuel :
     PopOk (w_init _ _ _ _ _ _ _ _ _ wd) (w_pop0 _ _ _ _ _ _ _ _ _ wd) ->
-    LI (run _ _ _ _ _ _ _ _ _ best_value best_ind cfg wd fuel).
-  Proof. intros H. unfold run. apply while_LI. split; simpl; [exact H|constructor]. Qed.
+    LI (w_init _ _ _ _ _ _ _ _ _ wd) (run _ _ _ _ _ _ _ _ _ best_value best_ind cfg wd fuel).
+  Proof. intros H. unfold run. apply while_LI. split; [apply Ext_refl|]. split; simpl; [exact H|constructor]. Qed.
 End LoopInvariant.
 
 (* ------------------------------------------------------------------ the EVQE operators as the world of the loop *)
@@ -135,6 +138,28 @@ Section EvqeWorld.
   Definition w_good (w : eworld) (r : hres) : Prop := hp_ok (hr_at r) (hr_pop r) /\ exists ext, fst w = hr_at r ++ ext.
   Definition w_popok (w : eworld) (p : hpop) : Prop := hp_ok (fst w) p.
 
+  Lemma run_world_LI (cfg : config ind hres op Init AuxEv) (h0 : heap) (pop0 : hpop) logs fuel :
+    hp_ok h0 pop0 ->
+    LI ind hres hpop op eworld w_ext w_good w_popok (h0, logs)
+       (run ind hres hpop op eworld Init Dist AuxEv AV hr_best_value hr_best cfg (evqe_world h0 pop0 logs) fuel).
+  Proof.
+    intros Hok.
+    apply (run_LI ind hres hpop op eworld Init Dist AuxEv AV hr_best_value hr_best w_ext w_good w_popok) with (wd := evqe_world h0 pop0 logs).
+    - intros w. exists []. rewrite app_nil_r. reflexivity.
+    - intros a b c [e1 E1] [e2 E2]. exists (e1 ++ e2). rewrite E2, E1, app_assoc. reflexivity.
+    - intros w w' x [ext E] [A [e1 B]]. split; [exact A|]. exists (e1 ++ ext). rewrite E, B, app_assoc. reflexivity.
+    - intros w w' p [ext E] A. unfold w_popok in *. rewrite E. apply hp_ok_extend. exact A.
+    - intros o w pop evs rr w2 Hp. simpl. unfold e_apply.
+      destruct (apply_h veqb ieq zero ev lg false o _ (fst w) pop) as [[h' cbs] r0] eqn:E.
+      destruct (apply_h_repaired _ _ _ _ _ _ _ _ _ _ _ _ Hp E) as [[ext X1] [X2 X3]].
+      intros H; inversion H; subst. split; [exists ext; reflexivity|]. split.
+      + intros x Hx. apply in_map_iff in Hx as [c [Ec Hc]]. specialize (X3 c Hc). destruct c; simpl in Ec; [discriminate|].
+        inversion Ec; subst. split; simpl; [apply hp_ok_extend; exact Hp|exists []; rewrite app_nil_r; reflexivity].
+      + intros p Hp2. apply X2. exact Hp2.
+    - intros o w pop est w1. simpl. intros H; inversion H; subst. exists []. rewrite app_nil_r. reflexivity.
+    - exact Hok.
+  Qed.
+
   (* for every configuration of the solver (operators in any order and number, limits, termination criterion), every
      estimate function, every supply of logs, every fuel: each history entry dereferences in the final heap to the
      population it denoted when it was reported *)
@@ -144,22 +169,17 @@ Section EvqeWorld.
     forall r, In r (st_hist _ _ (l_st _ _ _ _ _ s)) ->
               deref (fst (l_w _ _ _ _ _ s)) (hr_pop r) = deref (hr_at r) (hr_pop r).
   Proof.
-    intros Hok s r Hr.
-    assert (LIs : LI ind hres hpop op eworld w_good w_popok s).
-    { apply run_LI with (Ext := w_ext).
-      - intros w w' x [ext E] [A [e1 B]]. split; [exact A|]. exists (e1 ++ ext). rewrite E, B, app_assoc. reflexivity.
-      - intros w w' p [ext E] A. unfold w_popok in *. rewrite E. apply hp_ok_extend. exact A.
-      - intros o w pop evs rr w2 Hp. simpl. unfold e_apply.
-        destruct (apply_h veqb ieq zero ev lg false o _ (fst w) pop) as [[h' cbs] r0] eqn:E.
-        destruct (apply_h_repaired _ _ _ _ _ _ _ _ _ _ _ _ Hp E) as [[ext X1] [X2 X3]].
-        intros H; inversion H; subst. split; [exists ext; reflexivity|]. split.
-        + intros x Hx. apply in_map_iff in Hx as [c [Ec Hc]]. specialize (X3 c Hc). destruct c; simpl in Ec; [discriminate|].
-          inversion Ec; subst. split; simpl; [apply hp_ok_extend; exact Hp|exists []; rewrite app_nil_r; reflexivity].
-        + intros p Hp2. apply X2. exact Hp2.
-      - intros o w pop est w1. simpl. intros H; inversion H; subst. exists []. rewrite app_nil_r. reflexivity.
-      - exact Hok. }
-    destruct LIs as [_ LH]. rewrite Forall_forall in LH. destruct (LH r Hr) as [A [ext E]].
-    rewrite E. apply deref_extend. exact A.
+    intros Hok s r Hr. destruct (run_world_LI cfg h0 pop0 logs fuel Hok) as [_ [_ LH]].
+    rewrite Forall_forall in LH. destruct (LH r Hr) as [A [ext E]]. fold s in E. rewrite E. apply deref_extend. exact A.
+  Qed.
+
+  Lemma finish_history (cfg : config ind hres op Init AuxEv) wd s res :
+    finish ind hres hpop op eworld Init Dist AuxEv AV cfg wd s = Ok res ->
+    sr_history _ _ _ _ _ res = st_hist _ _ (l_st _ _ _ _ _ s).
+  Proof.
+    unfold finish. destruct (l_err _ _ _ _ _ s); [discriminate|].
+    destruct (st_best_ind _ _ (l_st _ _ _ _ _ s)); [|discriminate]. destruct (st_best_val _ _ (l_st _ _ _ _ _ s)); [|discriminate].
+    destruct (st_hist _ _ (l_st _ _ _ _ _ s)) eqn:Eh; [discriminate|]. intros H; inversion H; subst. reflexivity.
   Qed.
 
   (* ... in particular the history inside the solver result *)
@@ -170,9 +190,51 @@ Section EvqeWorld.
     finish ind hres hpop op eworld Init Dist AuxEv AV cfg wd s = Ok res ->
     forall r, In r (sr_history _ _ _ _ _ res) -> deref (fst (l_w _ _ _ _ _ s)) (hr_pop r) = deref (hr_at r) (hr_pop r).
   Proof.
-    intros Hok wd s Hf r Hr. apply (solver_history_stable cfg h0 pop0 logs fuel Hok).
-    unfold finish in Hf. destruct (l_err _ _ _ _ _ s); [discriminate|].
-    destruct (st_best_ind _ _ (l_st _ _ _ _ _ s)); [|discriminate]. destruct (st_best_val _ _ (l_st _ _ _ _ _ s)); [|discriminate].
-    destruct (st_hist _ _ (l_st _ _ _ _ _ s)) eqn:Eh; [discriminate|]. inversion Hf; subst. simpl in Hr. unfold s, wd in Eh. rewrite Eh. exact Hr.
+    intros Hok wd s Hf r Hr. rewrite (finish_history cfg wd s res Hf) in Hr.
+    exact (solver_history_stable cfg h0 pop0 logs fuel Hok r Hr).
+  Qed.
+
+  (* A LATER solve with the same solver object: it starts in the world the first solve left behind (the heap with every
+     list object created so far, the operators' remaining logs), with any configuration, any new initial population, any
+     fuel.  Whatever it does, every entry of the history in the FIRST result still dereferences, in the heap after the
+     second solve, to the population it denoted when it was reported.  (The history list itself is a value of the
+     first result in this model; that the implementation's two results share no list object is tested, see c11.py.) *)
+  Theorem later_solve_leaves_result (cfg1 cfg2 : config ind hres op Init AuxEv) (h0 : heap) (pop0 : hpop) logs1 fuel1 res1
+          (pop0' : hpop) logs2 fuel2 :
+    hp_ok h0 pop0 ->
+    let wd1 := evqe_world h0 pop0 logs1 in
+    let s1 := run ind hres hpop op eworld Init Dist AuxEv AV hr_best_value hr_best cfg1 wd1 fuel1 in
+    finish ind hres hpop op eworld Init Dist AuxEv AV cfg1 wd1 s1 = Ok res1 ->
+    hp_ok (fst (l_w _ _ _ _ _ s1)) pop0' ->
+    let wd2 := evqe_world (fst (l_w _ _ _ _ _ s1)) pop0' logs2 in
+    let s2 := run ind hres hpop op eworld Init Dist AuxEv AV hr_best_value hr_best cfg2 wd2 fuel2 in
+    forall r, In r (sr_history _ _ _ _ _ res1) ->
+              deref (fst (l_w _ _ _ _ _ s2)) (hr_pop r) = deref (hr_at r) (hr_pop r).
+  Proof.
+    intros Hok wd1 s1 Hf Hok2 wd2 s2 r Hr.
+    destruct (run_world_LI cfg1 h0 pop0 logs1 fuel1 Hok) as [_ [_ LH]]. fold wd1 in LH. fold s1 in LH.
+    rewrite Forall_forall in LH. rewrite (finish_history cfg1 wd1 s1 res1 Hf) in Hr. destruct (LH r Hr) as [A [e1 E1]].
+    destruct (run_world_LI cfg2 (fst (l_w _ _ _ _ _ s1)) pop0' logs2 fuel2 Hok2) as [[e2 E2] _]. fold wd2 in E2. fold s2 in E2.
+    simpl in E2. rewrite E2, E1, <- app_assoc. apply deref_extend. exact A.
   Qed.
 End EvqeWorld.
+
+(* non-vacuity: two solves with one solver object — operators speciation; selection; topological search; speciation,
+   max_generations = 1 — both return a result with one history entry; the second solve works on the heap the first left *)
+Definition ex_cfg : config (individual Z) (hres (V := Z)) op unit unit :=
+  Build_config (individual Z) (hres (V := Z)) op unit unit (map fst w_steps) (Some 1) None None None ANone.
+Definition ex_world (h0 : heap (V := Z)) : world (individual Z) (hres (V := Z)) (hpop (V := Z)) op (eworld (V := Z)) unit unit unit unit :=
+  evqe_world Z.eqb (individual_heq Z.eqb) 0 w_ev false (fun _ _ => None) unit unit unit unit (fun _ _ => tt) (fun _ _ => tt)
+             h0 Heap_proofs.w_init (map snd w_steps).
+Definition ex_s1 := run _ _ _ _ _ _ _ _ _ (hr_best_value (V := Z)) (hr_best (V := Z)) ex_cfg (ex_world []) 3.
+Definition ex_s2 := run _ _ _ _ _ _ _ _ _ (hr_best_value (V := Z)) (hr_best (V := Z)) ex_cfg (ex_world (fst (l_w _ _ _ _ _ ex_s1))) 3.
+
+Lemma two_solves_example :
+  hp_ok [] Heap_proofs.w_init /\ hp_ok (fst (l_w _ _ _ _ _ ex_s1)) Heap_proofs.w_init
+  /\ match finish _ _ _ _ _ _ _ _ _ ex_cfg (ex_world []) ex_s1,
+           finish _ _ _ _ _ _ _ _ _ ex_cfg (ex_world (fst (l_w _ _ _ _ _ ex_s1))) ex_s2 with
+     | Ok r1, Ok r2 => length (sr_history _ _ _ _ _ r1) = 1%nat /\ length (sr_history _ _ _ _ _ r2) = 1%nat
+                       /\ length (fst (l_w _ _ _ _ _ ex_s1)) = 1%nat /\ length (fst (l_w _ _ _ _ _ ex_s2)) = 2%nat
+     | _, _ => False
+     end.
+Proof. split; [exact I|]. split; [exact I|]. vm_compute. repeat split. Qed.
